@@ -180,7 +180,8 @@ def random_form(args):
     tid, seed = args
     rng = random.Random(seed)
     enc = rng.choice(["mp", "mp", "url"])
-    tpool = [ord(c) for c in "abcxyz019 _-.;=,'*%()[]"] + [233, 0x4e2d, 0x20ac, 0x7f]     # no '"' / '\\': see findings F14
+    tpool = [ord(c) for c in "abcxyz019 _-.;=,'*%()[]"] + [233, 0x4e2d, 0x20ac]     # '"' and '\\' only in "quoteful" forms (F14)
+    ctl = [0x7f, 9, 0x1f]                    # control characters: only representable as RFC 2231 parameters
     tpool_q = tpool + [34, 92]
     form = []
     nparts = rng.choice([0, 1, 1, 2, 3, 5, 8])
@@ -197,8 +198,8 @@ def random_form(args):
         if rng.random() < 0.5:
             form.append({"kind": "field", "name": name, "ne": ne, "fname": [], "fe": "q", "ct": False, "data": data})
         else:
-            fname = [rng.choice(pool + [13, 10]) for _ in range(rng.choice([1, 2, 5, 12]))]
-            fe = "x" if any(c in (13, 10) for c in fname) else rng.choice(["q", "x"])
+            fname = [rng.choice(pool + [13, 10] + ctl) for _ in range(rng.choice([1, 2, 5, 12]))]
+            fe = "x" if any(c < 32 or c == 127 for c in fname) else rng.choice(["q", "x"])
             form.append({"kind": "file", "name": name, "ne": "q" if ne == "q" else "x", "fname": fname, "fe": fe,
                          "ct": rng.random() < 0.5, "data": data})
     if enc == "url":
